@@ -102,6 +102,10 @@ fn main() {
     };
     let verif_dir = std::env::var("VERIF_DIR").unwrap_or_else(|_| "/verif".to_string());
 
+    if extra.iter().any(|a| a == "--successive") && entry.id == "C17" {
+        prop::c17::successive_main();
+        std::process::exit(0);
+    }
     if extra.iter().any(|a| a == "--conformance") && entry.id == "C16" {
         prop::c16::conformance_main();
         std::process::exit(0);
